@@ -161,7 +161,8 @@ type analysis struct {
 	// function-value flow (field-, parameter-, free-variable-, global-based)
 	fvFlow      map[string]map[*ssa.Function]bool
 	fvChanged   bool
-	wrappers    map[*ssa.Function]*wrapperInfo
+	ptrBind     map[*ssa.Parameter]map[string]bool // pointer parameter -> guarded fields it may point to
+	lockBind    map[*ssa.Parameter]map[string]bool // mutex parameter -> locks passed for it
 	addrEscapes map[string]string
 	byStruct    map[string][]string // "pkg.Type" -> guarded field keys
 	unresolved  map[string]string   // key -> description
@@ -314,6 +315,13 @@ func (a *analysis) resolveLock(v ssa.Value) string {
 		}
 	case *ssa.Global:
 		return a.short(x.Pkg.Pkg.Path()) + "." + x.Name()
+	case *ssa.Parameter:
+		// a mutex passed as an argument: resolved when every call site passes the same lock
+		if m := a.lockBind[x]; len(m) == 1 {
+			for k := range m {
+				return k
+			}
+		}
 	}
 	return ""
 }
@@ -699,7 +707,7 @@ func (a *analysis) applyCall(fi *fnInfo, st relState, ins ssa.Instruction, c *ss
 			name = a.resolveLock(c.Args[0])
 		}
 		if name == "" {
-			if a.collecting && a.wrappers[fi.fn] == nil {
+			if a.collecting {
 				a.unresolved["lock-receiver@"+a.fnName(fi.fn)] = a.posStr(ins.Pos())
 			}
 			return st
@@ -925,12 +933,110 @@ func (a *analysis) addrTargets(addr ssa.Value) (keys []string) {
 				}
 				return keys
 			}
+			if u, ok := x.X.(*ssa.UnOp); ok && u.Op == token.MUL {
+				if p, ok := u.X.(*ssa.Parameter); ok { // (*param)[i]
+					return append(keys, a.boundKeys(p)...)
+				}
+				if ph, ok := u.X.(*ssa.Phi); ok { // (*p)[i] with p a choice of field addresses
+					return append(keys, a.addrTargets(ph)...)
+				}
+			}
 			v = x.X
 			continue
+		case *ssa.Parameter:
+			return append(keys, a.boundKeys(x)...)
+		case *ssa.Phi:
+			// `p := &s.a; if c { p = &s.b }`: either
+			if i < 3 {
+				for _, e := range x.Edges {
+					if _, again := e.(*ssa.Phi); !again {
+						keys = append(keys, a.addrTargets(e)...)
+					}
+				}
+			}
+			return keys
 		}
 		break
 	}
 	return keys
+}
+
+func (a *analysis) boundKeys(p *ssa.Parameter) (keys []string) {
+	for k := range a.ptrBind[p] {
+		keys = append(keys, k)
+	}
+	sort.Strings(keys)
+	return keys
+}
+
+// bindPointerParams: which guarded fields a pointer parameter may point to
+// (`refreshFiltersArray(&d.conf.Filters, ...)`, `setProtectedBool(d.confMu,
+// &d.conf.ParentalEnabled, ...)`) and which lock a mutex parameter denotes;
+// context-insensitive, to a fixpoint.
+func (a *analysis) bindPointerParams() {
+	a.ptrBind = map[*ssa.Parameter]map[string]bool{}
+	a.lockBind = map[*ssa.Parameter]map[string]bool{}
+	isMutexPtr := func(t types.Type) bool {
+		pt, ok := t.Underlying().(*types.Pointer)
+		if !ok {
+			return false
+		}
+		s := pt.Elem().String()
+		return s == "sync.Mutex" || s == "sync.RWMutex"
+	}
+	for changed, iter := true, 0; changed && iter < 10; iter++ {
+		changed = false
+		for _, fn := range a.order {
+			for _, b := range fn.Blocks {
+				for _, ins := range b.Instrs {
+					ci, ok := ins.(ssa.CallInstruction)
+					if !ok {
+						continue
+					}
+					c := ci.Common()
+					g := c.StaticCallee()
+					if g == nil || !a.inRepo(g) || c.IsInvoke() {
+						continue
+					}
+					for i, arg := range c.Args {
+						if i >= len(g.Params) {
+							break
+						}
+						prm := g.Params[i]
+						if isMutexPtr(arg.Type()) {
+							if name := a.resolveLock(arg); name != "" {
+								if a.lockBind[prm] == nil {
+									a.lockBind[prm] = map[string]bool{}
+								}
+								if !a.lockBind[prm][name] {
+									a.lockBind[prm][name] = true
+									changed = true
+								}
+							}
+							continue
+						}
+						if _, isPtr := arg.Type().Underlying().(*types.Pointer); !isPtr {
+							continue
+						}
+						var keys []string
+						switch arg.(type) {
+						case *ssa.FieldAddr, *ssa.IndexAddr, *ssa.Parameter:
+							keys = a.addrTargets(arg)
+						}
+						for _, k := range keys {
+							if a.ptrBind[prm] == nil {
+								a.ptrBind[prm] = map[string]bool{}
+							}
+							if !a.ptrBind[prm][k] {
+								a.ptrBind[prm][k] = true
+								changed = true
+							}
+						}
+					}
+				}
+			}
+		}
+	}
 }
 
 // wholeStruct: addr points to a whole struct (not freshly allocated here) of a
@@ -955,6 +1061,18 @@ func (a *analysis) wholeStruct(addr ssa.Value) []string {
 }
 
 func (a *analysis) guardedLoad(v ssa.Value) string {
+	if u, ok := v.(*ssa.UnOp); ok && u.Op == token.MUL {
+		if p, ok := u.X.(*ssa.Parameter); ok {
+			if ks := a.boundKeys(p); len(ks) > 0 {
+				return ks[0]
+			}
+		}
+		if ph, ok := u.X.(*ssa.Phi); ok {
+			if ks := a.addrTargets(ph); len(ks) > 0 {
+				return ks[0]
+			}
+		}
+	}
 	fa := loadedFrom(v)
 	if fa == nil || baseFresh(fa) {
 		return ""
@@ -1032,24 +1150,6 @@ func (a *analysis) callAccesses(fi *fnInfo, st relState, ins ssa.Instruction, c 
 		}
 		return
 	}
-	if f := c.StaticCallee(); f != nil && a.wrappers[f] != nil {
-		wi := a.wrappers[f]
-		if lk := a.resolveLock(c.Args[wi.lockParam]); lk != "" {
-			wst := st.acquire(lmID(lm{lk, wi.w}))
-			for i, arg := range c.Args {
-				w, isDeref := wi.derefs[i]
-				if !isDeref {
-					continue
-				}
-				for _, k := range a.addrTargets(arg) {
-					rec(site{kind: siteAccess, st: wst, pos: ins.Pos(), field: k, write: w, note: "via-" + f.Name()})
-				}
-			}
-			return
-		}
-		a.unresolved["lock-receiver@"+a.fnName(fi.fn)+"@"+f.Name()] = a.posStr(ins.Pos())
-		return
-	}
 	name := ""
 	if c.IsInvoke() {
 		name = c.Method.Name()
@@ -1081,86 +1181,6 @@ func (a *analysis) callAccesses(fi *fnInfo, st relState, ins ssa.Instruction, c 
 					a.addrEscapes[k+"@"+a.fnName(fi.fn)] = a.posStr(ins.Pos())
 				}
 			}
-		}
-	}
-}
-
-// wrapperInfo describes a helper such as
-//
-//	func setProtectedBool(mu *sync.RWMutex, ptr *bool, val bool) { mu.Lock(); defer mu.Unlock(); *ptr = val }
-//
-// that takes the lock passed as parameter lockParam for its whole body and
-// reads/writes through pointer parameters.  A call of it is treated as the
-// accesses to the fields whose addresses are passed, under that lock.
-type wrapperInfo struct {
-	lockParam int
-	w         bool
-	derefs    map[int]bool // pointer parameter index -> written
-}
-
-func paramIndex(fn *ssa.Function, v ssa.Value) int {
-	p, ok := v.(*ssa.Parameter)
-	if !ok {
-		return -1
-	}
-	for i, q := range fn.Params {
-		if q == p {
-			return i
-		}
-	}
-	return -1
-}
-
-func (a *analysis) findWrappers() {
-	a.wrappers = map[*ssa.Function]*wrapperInfo{}
-	for _, fn := range a.order {
-		if len(fn.Blocks) == 0 {
-			continue
-		}
-		wi := &wrapperInfo{lockParam: -1, derefs: map[int]bool{}}
-		okShape := true
-		deferred := false
-		for bi, b := range fn.Blocks {
-			for _, ins := range b.Instrs {
-				switch x := ins.(type) {
-				case ssa.CallInstruction:
-					c := x.Common()
-					op := lockOpOf(c)
-					if op == opNone {
-						if _, isB := c.Value.(*ssa.Builtin); !isB {
-							okShape = false // calls anything else: not a plain wrapper
-						}
-						continue
-					}
-					i := paramIndex(fn, c.Args[0])
-					if i < 0 {
-						okShape = false
-						continue
-					}
-					_, isDefer := ins.(*ssa.Defer)
-					switch {
-					case (op == opLock || op == opRLock) && !isDefer && bi == 0 && wi.lockParam < 0:
-						wi.lockParam, wi.w = i, op == opLock
-					case (op == opUnlock || op == opRUnlock) && isDefer && bi == 0 && i == wi.lockParam && (op == opUnlock) == wi.w:
-						deferred = true
-					default:
-						okShape = false
-					}
-				case *ssa.Store:
-					if i := paramIndex(fn, x.Addr); i >= 0 {
-						wi.derefs[i] = true
-					}
-				case *ssa.UnOp:
-					if x.Op == token.MUL {
-						if i := paramIndex(fn, x.X); i >= 0 {
-							wi.derefs[i] = wi.derefs[i]
-						}
-					}
-				}
-			}
-		}
-		if okShape && deferred && wi.lockParam >= 0 && len(wi.derefs) > 0 {
-			a.wrappers[fn] = wi
 		}
 	}
 }
@@ -1445,7 +1465,7 @@ func main() {
 			}
 		}
 	}
-	a.findWrappers()
+	a.bindPointerParams()
 	// function-value flow to a fixpoint
 	for i := 0; i < 20; i++ {
 		a.fvChanged = false
@@ -1663,7 +1683,12 @@ func main() {
 	os.MkdirAll(filepath.Dir(out), 0o755)
 	old, _ := os.ReadFile(out)
 	if string(old) != sb.String() {
-		if err := os.WriteFile(out, []byte(sb.String()), 0o644); err != nil {
+		tmp := fmt.Sprintf("%s.tmp%d", out, os.Getpid())
+		err := os.WriteFile(tmp, []byte(sb.String()), 0o644)
+		if err == nil {
+			err = os.Rename(tmp, out) // readers see the old or the new table, never a partial one
+		}
+		if err != nil {
 			fmt.Fprintln(os.Stderr, "locktable:", err)
 			os.Exit(2)
 		}
